@@ -196,6 +196,15 @@ def _tagkind_catalogue():
         out.append(c("") + "E: !enum\n  values:\n" + c("    ") + "    one: 1\n" + c("") + "A: int*\n" + c("") + "R: !record\n  fields:\n" + c("    ") + "    a: int\n" + c("    ") +
                    "    arr: !array\n      items: float\n      dimensions:\n" + c("        ") + "        x:\n  computedFields:\n" + c("    ") + "    twice: a * 2\n" +
                    c("") + "P: !protocol\n  sequence:\n" + c("    ") + "    s: R\n")
+    # identifiers at the limits of the name grammar: long digit runs (beyond int64 when read as a number), 64 characters, digit/letter alternation
+    digits = ["1", "007", "20240924153000123456", "9" * 19, "9" * 20, "1" + "0" * 25, "18446744073709551616", "0" * 30]
+    for dg in digits:
+        for stem in ["scan%s", "x%s", "aB%s", "a%sb%sc", "ab%sCd", "a1b2c3d%s"]:
+            nm = (stem % ((dg,) * stem.count("%s")))[:64]
+            Nm = nm[0].upper() + nm[1:]
+            out.append("%s: !record\n  fields:\n    %s: int\n    other: %s?\n  computedFields:\n    c%s: %s + 1\n"
+                       "E%s: !enum\n  values: [%s, v%s]\nP%s: !protocol\n  sequence:\n    %s: %s\n    s%s: !stream {items: E%s}\n" % (
+                           Nm, nm, "int", nm[:60], nm, Nm[:60], nm, nm[:60], Nm[:60], nm, Nm, nm[:60], Nm[:60]))
     return out
 
 
@@ -225,6 +234,13 @@ def _manifest_tagkind_catalogue():
     out.append("%s %s\n" % ("!!seq", "{namespace: %(ns)s}"))
     out.append("%s %s\n" % ("!!map", "[namespace, %(ns)s]"))
     out.append("!!str {namespace: %(ns)s}\n")
+    # the same target named twice (../dupdep is a valid package written next to the package for these cases)
+    for imp in ["[../dupdep, ../dupdep]", "[../dupdep, ../dupdep/, ../dupdep]", "[../dupdep, ./../dupdep]"]:
+        out.append("namespace: %%(ns)s\nimports: %s\n" % imp)
+    out.append("namespace: %(ns)s\nimports:\n  - ../dupdep\nversions:\n  v1_0: ../dupdep\n")
+    out.append("namespace: %(ns)s\nversions:\n  v1_0: .\n  v1_1: .\n")
+    out.append("namespace: %(ns)s\nversions:\n  v1_0: .\n  v1_1: ./\n  v1_2: .\n")
+    out.append("namespace: %(ns)s\nversions: {a: ., b: ., c: .}\nimports: [../dupdep, ../dupdep]\n")
     return out
 
 
@@ -348,6 +364,8 @@ def run(ctx):
             files[root_rel + "/_package.yml"] = fuzzgen.mutate_manifest(pkg.ns, r)
         elif kind == "mtagkind":
             files[root_rel + "/_package.yml"] = MTAGKIND[i] % {"ns": pkg.ns}
+            files[os.path.join(os.path.dirname(root_rel), "dupdep/_package.yml")] = "namespace: DupDep\n"
+            files[os.path.join(os.path.dirname(root_rel), "dupdep/d.yml")] = "DupT: int\n"
             desc += " manifest tag/kind mismatch `%s`" % MTAGKIND[i].replace("\n", " | ")[:90]
         elif kind == "cycle":
             forms = [("a", "b", None), ("a", "b + 1", None), ("a", "c", "b"), ("a", "a", None), ("a", "a + 1", None)]
@@ -391,7 +409,7 @@ def run(ctx):
         ctx.case(key)
         ctx.count("kind." + kind)
         procs = {"validate": cli.run_cli("validate", pkgdir, home)}
-        if i % 2 == 0 or kind in ("nest", "manifest"):
+        if i % 2 == 0 or kind in ("nest", "manifest", "tagkind", "mtagkind"):
             procs["generate"] = cli.run_cli("generate", pkgdir, home)
         nviol = len(ctx.violations) + sum(v["n"] for v in ctx.known_hits.values())
         judge(ctx, case_dir, pkgdir, kind, desc, procs)
